@@ -474,7 +474,48 @@ def a_getpos(a, res, ctx):
         return "unwrap error names %d:%d, the failing get spans line %d columns %d-%d" % (line, col, a["line"], a["col_min"], a["col_max"])
 
 
+def precedence_cases():
+    """`a ?= e` takes the WHOLE expression to its right (it binds more loosely than every operator): written without parentheses
+    next to && || == != < + and `or`, in statement, `if` and `while` position, for bool / int optionals. The source text is written
+    out (the printer would add parentheses); the expected lines follow from `a ?= (e)`"""
+    out = []
+    B = {True: "true", False: "false"}
+    for p_ in (True, False):
+        for q_ in (True, False):
+            for op, fn in (("&&", lambda a, b: a and b), ("||", lambda a, b: a or b), ("==", lambda a, b: a == b), ("!=", lambda a, b: a != b)):
+                val = fn(p_, q_)
+                pre = "p = %s\nq = fn() -> bool {\n\tprint \"q\"\n\treturn %s\n}\nflag: bool? = nil\n" % (B[p_], B[q_])
+                qruns = not ((op == "&&" and not p_) or (op == "||" and p_))
+                ql = ["q"] if qruns else []
+                out.append(("stmt:%s:%s:%s" % (op, p_, q_), pre + "flag ?= p %s q()\nprint flag\n" % op, ql + [B[val]]))
+                out.append(("value:%s:%s:%s" % (op, p_, q_), pre + "r = flag ?= p %s q()\nprint r\nprint flag\n" % op, ql + ["true", B[val]]))
+                out.append(("if:%s:%s:%s" % (op, p_, q_), pre + "if flag ?= p %s q() {\n\tprint \"stored\"\n} else {\n\tprint \"absent\"\n}\nprint flag\n" % op, ql + ["stored", B[val]]))
+                out.append(("while:%s:%s:%s" % (op, p_, q_), pre + "n = 0\nwhile flag ?= p %s q() {\n\tn += 1\n\tif n > 1 {\n\t\tbreak\n\t}\n}\nprint n\nprint flag\n" % op, ql + ql + ["2", B[val]]))
+    for a_, b_ in ((1, 2), (5, 5)):
+        pre = "x = %d\ny = %d\ncnt: int? = nil\nlt: bool? = nil\no: int? = nil\n" % (a_, b_)
+        out.append(("int-sum:%d" % a_, pre + "cnt ?= x + y * 2\nprint cnt\n", [str(a_ + b_ * 2)]))
+        out.append(("bool-compare:%d" % a_, pre + "lt ?= x < y\nprint lt\nif lt ?= x + 1 >= y && x != 0 {\n\tprint get lt\n}\n", [B[a_ < b_], B[a_ + 1 >= b_ and a_ != 0]]))
+        out.append(("int-or:%d" % a_, pre + "cnt ?= (o) or x + y\nprint cnt\n", [str(a_ + b_)]))
+    return [{"precedence": n, "src": "print \"@start\"\n" + src + "print \"@end\"\n", "expect": ["@start"] + exp + ["@end"]} for n, src, exp in out]
+
+
+def enumerated(tier, seed):
+    return precedence_cases()
+
+
 def check(case):
+    if "precedence" in case:
+        out = "\n".join(case["expect"]) + "\n"
+        sc = scenario.simple(case["src"], asserts=[{"kind": "stdout_eq", "step": "run", "value": out}, {"kind": "exit", "step": "run", "in": ["ok"]}])
+        r = CaseResult(nt_keys=[case["src"]], labels=["precedence-of-unwrap-assignment:" + case["precedence"].split(":")[0]], sample={"program_tail": case["src"][-300:], "expected": out[-200:]})
+        res, fails, _ = scenario.execute(sc)
+        if fails:
+            if "Did not compile" in res["run"].stderr:
+                diag = "\n".join(l for l in res["run"].stdout.split("\n") if " = " in l or "-->" in l)[:400]
+                r.failure = fail("the compiler rejected a program the language accepts (%s):\n%s\n%s" % (case["precedence"], diag, case["src"]), "C12:rejected-valid-program", sc, case={"name": case["precedence"]})
+            else:
+                r.failure = fail("%s: %s\n%s" % (case["precedence"], "; ".join(fails), case["src"]), "C12:precedence:%s" % case["precedence"].split(":")[0], sc, case={"name": case["precedence"]})
+        return r
     stmts = PRELUDE + [("print", S("@start"))] + case["stmts"] + [("print", S("@end"))]
     src, marks = ms.program(stmts)
     try:
